@@ -25,6 +25,10 @@ type opState struct {
 	shadow *shadow
 	doc    map[string]any
 	vars   map[string]any
+	// a query built ahead of its Exec (Client.BuildFirst) or executed again by a later op (Op.ReexecOf)
+	q      *genql.Query
+	newErr error
+	built  bool
 }
 
 var (
@@ -97,7 +101,19 @@ func main() {
 			mine = append(mine, st)
 		}
 		clients = append(clients, func() {
+			if cl.BuildFirst {
+				// the caller prepares all its queries, then executes them
+				for oi := range cl.Ops {
+					if op := &cl.Ops[oi]; op.Register == "" && !op.Reader && op.ReexecOf == 0 {
+						buildOp(op, mine[oi], true)
+					}
+				}
+			}
 			for oi := range cl.Ops {
+				if k := cl.Ops[oi].ReexecOf; k > 0 && k <= oi {
+					// Exec once more on the *Query an earlier op of this client built
+					mine[oi].q, mine[oi].newErr, mine[oi].built, mine[oi].vars = mine[k-1].q, mine[k-1].newErr, true, mine[k-1].vars
+				}
 				runOp(&cl.Ops[oi], mine[oi])
 			}
 		})
@@ -180,36 +196,10 @@ func runOp(op *casefmt.Op, st *opState) {
 		obs.InputDiff = st.shadow.diff(doc)
 		return
 	}
-	var opts []genql.QueryOption
-	if op.Wrapped {
-		opts = append(opts, genql.Wrapped())
+	if !st.built {
+		buildOp(op, st, false)
 	}
-	if op.Postgres {
-		opts = append(opts, genql.PostgresEscapingDialect())
-	}
-	if op.Idiomatic {
-		opts = append(opts, genql.IdomaticArrays())
-	}
-	if op.Vars >= 0 && op.Vars < len(varsets) {
-		st.vars = varsets[op.Vars]
-		opts = append(opts, genql.WithVars(st.vars))
-	}
-	if op.Constants != nil {
-		opts = append(opts, genql.WithConstants(op.Constants))
-	}
-	if op.ConstShared {
-		opts = append(opts, genql.WithConstants(theCase.SharedConstants))
-	}
-	if !op.NoHandlers {
-		opts = append(opts, genql.UnReportedErrors(func(err error) {
-			noteReported(obs, errText(err))
-			if op.HandlerPanics {
-				panic("the caller's error handler cannot cope with: " + errText(err))
-			}
-		}))
-		opts = append(opts, genql.CompletedCallback(func() { noteCompleted(obs) }))
-	}
-	q, err := genql.New(doc, op.Query, opts...)
+	q, err := st.q, st.newErr
 	if err != nil {
 		obs.Returned = true
 		obs.NewErr = errText(err)
@@ -259,6 +249,54 @@ func runOp(op *casefmt.Op, st *opState) {
 	}
 	obs.InputDiff = st.shadow.diff(doc)
 	obs.VarsAfter = encodeVars(st.vars)
+}
+
+// buildOp calls genql.New for a query op; a panic escaping New is kept as the op's construction failure and shows when
+// the op runs.
+func buildOp(op *casefmt.Op, st *opState, ahead bool) {
+	obs := st.obs
+	doc := docs[op.Doc]
+	st.built = true
+	defer func() {
+		if !ahead {
+			return // built where it runs: runOp's own recover records the escaped panic, as it always did
+		}
+		if r := recover(); r != nil {
+			st.newErr = fmt.Errorf("PANIC escaped New: %s", safeSprint(r))
+			obs.Panic = safeSprint(r)
+			obs.PanicStack = trimStack(string(debug.Stack()))
+		}
+	}()
+	var opts []genql.QueryOption
+	if op.Wrapped {
+		opts = append(opts, genql.Wrapped())
+	}
+	if op.Postgres {
+		opts = append(opts, genql.PostgresEscapingDialect())
+	}
+	if op.Idiomatic {
+		opts = append(opts, genql.IdomaticArrays())
+	}
+	if op.Vars >= 0 && op.Vars < len(varsets) {
+		st.vars = varsets[op.Vars]
+		opts = append(opts, genql.WithVars(st.vars))
+	}
+	if op.Constants != nil {
+		opts = append(opts, genql.WithConstants(op.Constants))
+	}
+	if op.ConstShared {
+		opts = append(opts, genql.WithConstants(theCase.SharedConstants))
+	}
+	if !op.NoHandlers {
+		opts = append(opts, genql.UnReportedErrors(func(err error) {
+			noteReported(obs, errText(err))
+			if op.HandlerPanics {
+				panic("the caller's error handler cannot cope with: " + errText(err))
+			}
+		}))
+		opts = append(opts, genql.CompletedCallback(func() { noteCompleted(obs) }))
+	}
+	st.q, st.newErr = genql.New(doc, op.Query, opts...)
 }
 
 //go:norace
